@@ -19,7 +19,7 @@ from fmon import core, attach
 from workloads import designs as D
 
 PROP = "C06"
-DECIDING = ["self-evaluation", "newdata-evaluates"]
+DECIDING = ["self-evaluation", "newdata-evaluates", "caller-objects-not-aliased"]
 STATE = {"n": 0}
 
 
@@ -316,7 +316,65 @@ def judge_text(text, frame, m):
             m.violation("newdata-evaluates", f"{kind}: {type(e).__name__}: {e}", case=case, key="raises:" + type(e).__name__)
 
 
+CALLER_FORMULAS = ["y ~ C(s, levels=lv)", "y ~ 0 + x + C(s, levels=lv):x", "y ~ x + (C(s, levels=lv) | g)",
+                   "y ~ bs(x, knots=kn)", "y ~ C(s, levels=lv) + bs(x, knots=kn, degree=2):h"]
+CALLER_CHANGES = ["reverse", "extend", "clear", "rebind"]
+
+
+def judge_caller_objects(frame, formula, change, m):
+    """Frozen at training time: the objects the caller passed as arguments (a levels list, a knots array)
+    belong to the caller, who may reuse them afterwards - reverse, extend or empty them in place, or bind the
+    name to something else. The design must not notice."""
+    import formulae
+
+    df, meta = D.case_frame(frame)
+    case = {"formula": formula, "frame": frame, "change": change, "caller_objects": True}
+    m.current_case = case
+    lv = sorted(set(df["s"]), reverse=True)
+    kn = np.quantile(df["x"].to_numpy(), [0.3, 0.6])
+    ns = {"lv": lv, "kn": kn}
+    try:
+        dm = formulae.design_matrices(formula, df, extra_namespace=ns)
+    except Exception as e:
+        m.note("design-raised:" + type(e).__name__)
+        return
+    before = {k: np.array(np.asarray(p.design_matrix), dtype=float) for k, p in (("common", dm.common), ("group", dm.group)) if p is not None}
+    if change == "reverse":
+        lv.reverse(); kn[:] = kn[::-1].copy()
+    elif change == "extend":
+        lv.append("never seen"); kn += 0.25
+    elif change == "clear":
+        lv.clear(); kn[:] = 0.0
+    else:
+        ns["lv"] = list(reversed(lv)); ns["kn"] = kn[::-1] + 1.0
+    for kind, part in (("common", dm.common), ("group", dm.group)):
+        if part is None:
+            continue
+        m.ev("caller-objects-not-aliased")
+        try:
+            got = np.array(np.asarray(part.evaluate_new_data(df).design_matrix), dtype=float)
+        except Exception as e:
+            m.violation("caller-objects-not-aliased", f"{formula}: after the caller's '{change}' of its own lv / kn, evaluating the training "
+                        f"frame raised {type(e).__name__}: {e}", case=case, key="caller-objects:raises")
+            continue
+        if got.shape != before[kind].shape or not np.allclose(got, before[kind], rtol=1e-10, atol=1e-12):
+            m.violation("caller-objects-not-aliased", f"{formula}: after the caller's '{change}' of its own lv / kn the {kind} matrix of the "
+                        "training frame is no longer reproduced", case=case, key="caller-objects:" + kind)
+        if not np.array_equal(np.asarray(part.design_matrix, dtype=float), before[kind]):
+            m.violation("caller-objects-not-aliased", f"{formula}: the training {kind} matrix itself changed", case=case, key="caller-objects:training")
+
+
 def run_shard(i, n, tier, seed, m):
+    k = 0
+    for formula in CALLER_FORMULAS:
+        for change in CALLER_CHANGES:
+            for rep in range(1 if tier == "quick" else 8):
+                k += 1
+                if k % n != i:
+                    continue
+                frame = {"seed": seed * 977 + k * 13 + 5, "hostile": rep % 2 == 1, "min_rows": 12, "max_rows": 40}
+                m.case({"formula": formula, "change": change, "frame": frame, "caller_objects": True}, canon=[formula, change, frame["seed"]], nontrivial=True)
+                core.guarded(judge_caller_objects)(frame, formula, change, m)
     rng = random.Random(seed * 1000003 + i * 17 + 6)
     ncases = (3000 if tier == "quick" else 40000) // n
     prev = None
@@ -342,7 +400,9 @@ def run_shard(i, n, tier, seed, m):
 def replay(rec, m):
     register_hooks(m)
     case = rec["case"]
-    if case.get("special"):
+    if case.get("caller_objects"):
+        judge_caller_objects(case["frame"], case["formula"], case["change"], m)
+    elif case.get("special"):
         judge_text(case["text"], case["frame"], m)
     else:
         judge(case, m)
